@@ -137,6 +137,8 @@ def subspaces(tier):
         subs.append(('3:corpus-operand-faults', corpus_faults()))
     # 4. nesting
     subs.append(('4:nesting', list(nest_cases())))
+    # 4b. statement sequences whose items refer to each other: preprocessor definitions, structure bodies with element references
+    subs.append(('4:preprocessor-and-structure-sequences', seq_cases(3 if q else 4)))
     # 5. utilities
     S = seeds()
 
@@ -193,6 +195,23 @@ def corpus_faults():
                     yield {'k': 'corpus', 't': t, 'line': i, 'new': '%s\t%s\t%s' % (m.group(1), m.group(2), ','.join(ops[:k] + [r] + ops[k + 1:]))}
             yield {'k': 'corpus', 't': t, 'line': i, 'new': '%s\t%s\t%s' % (m.group(1), m.group(2), ','.join(ops + ops))}
             yield {'k': 'corpus', 't': t, 'line': i, 'new': '%s\t%s' % (m.group(1), m.group(2))}
+
+
+PP = ['#define A 1', '#define B A', '#define A', '#undef A', '#undef B', '#undef C', '#undef', '#ifdef A', '#ifndef C', '#endif', '\tdb A', '\tdb B+1']
+STRUCT_T = {'h8/300': ['byte1\tds.b 1', 'byte2\tds.b 1', 'rdy\tbit 0,byte1', 'err\tbit 1,byte3', 'fwd\tbit 2,byte2', 'bad\tbit 9,byte1', 'self\tbit 0,self'],
+            'z8601': ['byte1\tdb ?', 'byte2\tdb ?', 'rdy\tdefbit byte1,0', 'err\tdefbit byte3,1', 'fwd\tdefbit byte2,2', 'self\tdefbit self,0'],
+            'st7': ['byte1\tds.b 1', 'byte2\tds.b 1', 'rdy\tbit byte1,0', 'err\tbit byte3,1', 'fwd\tbit byte2,2']}
+
+
+def seq_cases(n):
+    for k in range(1, n + 1):
+        for seq in itertools.product(range(len(PP)), repeat=k):
+            yield {'k': 'seq', 'fam': 'pp', 'seq': list(seq)}
+    for cpu, items in STRUCT_T.items():
+        for k in range(1, n + 1):
+            for seq in itertools.product(range(len(items)), repeat=k):
+                if len(set(seq)) == len(seq):
+                    yield {'k': 'seq', 'fam': 'struct', 'cpu': cpu, 'seq': list(seq)}
 
 
 def builtin_functions():
@@ -335,6 +354,19 @@ def evaluate(case):
         o = run('asan')
         r = finish(run, o, ASL_OK, '%s line %d := %r' % (t, case['line'] + 1, case['new']), 'asl/operand', big_ok=any(b in case['new'] for b in BIG))
         return r or core.R(True, 'rc%s' % o.rc, nontrivial=o.rc != 0, states=['%s/%d' % (t, o.rc)])
+    if k == 'seq':
+        if case['fam'] == 'pp':
+            src = '\tcpu 8080\n' + '\n'.join(PP[i] for i in case['seq']) + '\n\tnop\n'
+        else:
+            src = '\tcpu %s\nflags\tstruct\n%s\nflags\tendstruct\n\tnop\n' % (case['cpu'], '\n'.join(STRUCT_T[case['cpu']][i] for i in case['seq']))
+
+        def run(v, to=6):
+            core.fresh()
+            core.put('a.asm', src)
+            return core.run('asl', ['-q', 'a.asm'], variant=v, timeout=to, maxout=1 << 16)
+        o = run('asan')
+        r = finish(run, o, ASL_OK, src.replace('\n', ' / '), 'asl/seq/' + case['fam'], big_ok=False)
+        return r or core.R(True, 'rc%s' % o.rc, nontrivial=True, states=['seq%d' % o.rc])
     if k in ('nest', 'count', 'ctx'):
         src, opt = nest_src(case)
 
